@@ -1,5 +1,6 @@
 import I2N.Lemmas.ToolsFlags
 import I2N.Lemmas.ToolsReach
+import I2N.Extracted.GenUpdate
 /-!
 # C15 — The update tool reruns exactly the requested path and drops only its dependants
 
@@ -250,5 +251,268 @@ example : summary (updateFlags (exUpdate "install" "install" [0] [])) =
 /-- an unknown target state is rejected with `ValueError` -/
 example : (match updateFlags (exUpdate "install" "nosuchstate" [] []) with | .error e => some e | _ => none)
     = some Err.valueError := by decide
+
+/-! ## The flagging passes of `intertest_setup.update` ARE the Python source (translator tie)
+
+`I2N/Extracted/GenUpdate.lean` is regenerated on every `./check C15` from the CURRENT source of
+`avocado_i2n/intertest_setup.py` by `harness/pygen_pxupdate.py`, which cuts `update` into its loops (vms with their index,
+workers, the all-pairs bridging loop), the `try` around the parse of the remove-set graph (an `EmptyCartesianProduct`
+must end in `continue`) and two straight statement sequences that `harness/pygen.py` translates: the composition of the
+remove-set restriction (`genRemoveSet`) and the flagging passes (`genFlagPasses`).  The hand model `updateFlags` is ONE
+(vm, worker) iteration; the loops around it, the reading of `from_state` / `to_state` / `remove_set` of the vm and the
+parser oracle are the explicitly defined adapter `updateAll` / `bridgeAll` of `I2N/Lemmas/ToolsUpdate.lean`. -/
+
+section MatchesSource
+open I2N.Extracted.GenUpdate
+
+/-- **remove set**: the regenerated front part of the worker loop body computes the adapter's restriction — `remove_set`
+of the vm (not of the global parameters), default `leaves`, `all..` in front unless an available restriction occurs in it.
+No hypotheses. -/
+theorem removeSet_matches_source (env : UEnv) (vm : String) : genRemoveSet env vm = removeSetStr env vm := by
+  unfold genRemoveSet removeSetStr
+  cases h : env.restrictions.find? (fun r => I2N.Trav.strIn r ((env.vmParam vm "remove_set").getD "leaves")) with
+  | none =>
+    have h' : env.restrictions.any (fun r => I2N.Trav.strIn r ((env.vmParam vm "remove_set").getD "leaves")) = false := by
+      rw [List.find?_eq_none] at h
+      simpa [List.any_eq_false] using h
+    simp [h, h', Id.run, pure, bind]
+  | some r =>
+    have h' : env.restrictions.any (fun r => I2N.Trav.strIn r ((env.vmParam vm "remove_set").getD "leaves")) = true := by
+      have := List.find?_some h
+      have hm := List.mem_of_find?_eq_some h
+      exact List.any_eq_true.mpr ⟨r, hm, this⟩
+    simp [h, h', Id.run, pure, bind]
+
+/-- the hand model's input for a remove-set graph `g` the parser answered -/
+def updateInWith (env : UEnv) (vm w : String) (g : UGraph) : UpdateIn :=
+  { updateIn env 0 vm w with clean := some g }
+
+/-- **the flagging passes**: for every environment, vm, worker and remove-set graph the regenerated statement sequence
+ends with the policy table the hand model `updateFlags` computes, or raises the same error.  No hypotheses. -/
+theorem flagPasses_matches_source (env : UEnv) (vm w : String) (g : UGraph) :
+    (genFlagPasses env g vm w ((env.vmParam vm "from_state").getD "install")
+        ((env.vmParam vm "to_state").getD "customize") (env.compForms vm)).run {} =
+      (updateFlags (updateInWith env vm w g)).map (fun o => ((), o.getD {})) := by
+  unfold genFlagPasses updateFlags updateInWith updateIn
+  generalize (env.vmParam vm "from_state").getD "install" = frm
+  generalize (env.vmParam vm "to_state").getD "customize" = tgt
+  simp only [StateT.run, bind, StateT.bind, fiM, fcAllM, stepM, Except.bind, Except.map, pure, StateT.pure, Except.pure,
+    bne]
+  cases flagIntersection g {} (g.nodes.map (·.name)) .run .never false false with
+  | error e => rfl
+  | ok f1 =>
+    simp only []
+    cases flagIntersection g f1 (g.nodes.map (·.name)) .clean .never false false with
+    | error e => rfl
+    | ok f2 =>
+      simp only []
+      have hfs : dotSplit (if (tgt == "install") = true then "" else tgt) = if (tgt == "install") = true then [] else dotSplit tgt := by
+        split <;> simp [dotSplit]
+      rw [hfs]
+      cases List.foldlM (fun f cf => mapAssertion (flagChildren g f (if (tgt == "install") = true then [] else dotSplit tgt) vm
+          (some (cf, w)) .clean .cloneFree true false)) f2 (env.compForms vm) with
+      | error e => rfl
+      | ok f3 =>
+        simp only []
+        by_cases ht : (tgt == "install") = true
+        · simp only [ht, if_true, bind, StateT.bind, stepM, Except.map, Except.bind, StateT.pure, pure, Except.pure]
+          cases flagIntersection g f3 (env.installNames vm w) .run .notFinishedOrRerun false true with
+          | error e => rfl
+          | ok f4 =>
+            simp only []
+            by_cases hf : (frm == "install") = true
+            · simp [hf, bind, Except.bind, StateT.pure, pure, Except.pure]
+            · have hf' : (frm == "install") = false := by simpa using hf
+              simp only [hf', Bool.not_false, if_true, bind, StateT.bind, stepM, Except.map, Except.bind, StateT.pure, pure, Except.pure]
+              cases flagIntersection g f4 (env.parseNames ("all.." ++ frm) vm w) .run .never false false with
+              | error e => rfl
+              | ok f5 =>
+                simp only []
+                cases List.foldlM (fun f cf => mapAssertion (flagChildren g f (dotSplit frm) vm
+                    (some (cf, w)) .run .notFinishedOrRerun false true)) f5 (env.compForms vm) <;> rfl
+        · have ht' : (tgt == "install") = false := by simpa using ht
+          simp only [ht', Bool.false_eq_true, if_false, bind, StateT.bind, stepM, Except.map, Except.bind, StateT.pure, pure, Except.pure]
+          cases flagIntersection g f3 (env.parseNames ("all.." ++ tgt) vm w) .run .notFinishedOrRerun false true with
+          | error e => rfl
+          | ok f4 =>
+            simp only []
+            by_cases hf : (frm == "install") = true
+            · simp [hf, bind, Except.bind, StateT.pure, pure, Except.pure]
+            · have hf' : (frm == "install") = false := by simpa using hf
+              simp only [hf', Bool.not_false, if_true, bind, StateT.bind, stepM, Except.map, Except.bind, StateT.pure, pure, Except.pure]
+              cases flagIntersection g f4 (env.parseNames ("all.." ++ frm) vm w) .run .never false false with
+              | error e => rfl
+              | ok f5 =>
+                simp only []
+                cases List.foldlM (fun f cf => mapAssertion (flagChildren g f (dotSplit frm) vm
+                    (some (cf, w)) .run .notFinishedOrRerun false true)) f5 (env.compForms vm) <;> rfl
+
+/-- with a remove-set graph the passes end with a policy table (never with "worker skipped") -/
+theorem updateFlags_not_none (u : UpdateIn) (g : UGraph) (hc : u.clean = some g) : updateFlags u ≠ .ok none := by
+  intro h
+  unfold updateFlags at h
+  rw [hc] at h
+  simp only at h
+  obtain ⟨f1, _, h⟩ := bind_ok h
+  obtain ⟨f2, _, h⟩ := bind_ok h
+  obtain ⟨f3, _, h⟩ := bind_ok h
+  obtain ⟨f4, _, h⟩ := bind_ok h
+  split at h
+  · obtain ⟨f5, _, h⟩ := bind_ok h
+    obtain ⟨f6, _, h⟩ := bind_ok h
+    simp [pure, Except.pure] at h
+  · simp [pure, Except.pure, bind, Except.bind] at h
+
+/-- **one iteration of the worker loop** (structural skeleton + the two translated parts) is the adapter's step on top of
+the hand model: an empty Cartesian product skips this worker and nothing else -/
+theorem workerBody_matches_source (env : UEnv) (i : Nat) (vm w : String) :
+    genWorkerBody env i vm w = stepM (fun acc => updateOne env i vm acc w) := by
+  funext acc
+  unfold genWorkerBody updateOne stepM
+  rw [removeSet_matches_source]
+  cases h : env.parseClean (removeSetStr env vm) i vm w with
+  | none =>
+    have : updateFlags (updateIn env i vm w) = .ok none := by
+      unfold updateFlags; simp [updateIn, h]
+    rw [this]; rfl
+  | some g =>
+    have hu : updateIn env i vm w = updateInWith env vm w g := by
+      simp [updateIn, updateInWith, h]
+    rw [hu]
+    have hp := flagPasses_matches_source env vm w g
+    simp only [StateT.run] at hp ⊢
+    rw [hp]
+    cases hr : updateFlags (updateInWith env vm w g) with
+    | error e => rfl
+    | ok o =>
+      cases o with
+      | none => exact absurd hr (updateFlags_not_none _ g rfl)
+      | some f => rfl
+
+/-- **the two loops of `update`**: for every environment, every list of selected vms and every list of workers the
+regenerated function flags the same (vm, worker) graphs with the same policy tables, in the same order, as the adapter
+`updateAll` over the hand model — or raises the same error.  No hypotheses; any number of vms and workers. -/
+theorem update_matches_source (env : UEnv) (vms workers : List String) :
+    (genUpdate env vms workers).run [] = (updateAll env vms workers).map (fun a => ((), a)) := by
+  unfold genUpdate updateAll
+  have inner : ∀ iv : Nat × String, (workers.forM fun worker => genWorkerBody env iv.1 iv.2 worker) =
+      stepM (fun acc => workers.foldlM (updateOne env iv.1 iv.2) acc) := by
+    intro iv
+    funext acc
+    simp only [workerBody_matches_source]
+    exact forM_stepM (fun acc w => updateOne env iv.1 iv.2 acc w) workers acc
+  simp only [inner]
+  exact forM_stepM (fun acc (iv : Nat × String) => workers.foldlM (updateOne env iv.1 iv.2) acc) (enumFrom 0 vms) []
+
+/-- the body of the bridging loop -/
+theorem bridgePair_matches_source (ns : List BNode) (i j : Nat) :
+    genBridgePair ns i j = stepM (fun b => bridgePair ns b i j) := by
+  funext b
+  unfold genBridgePair bridgePair stepM
+  by_cases h1 : (i == j) = true
+  · simp [h1, bind, StateT.bind, pure, StateT.pure, Except.pure, Except.map, Except.bind]
+  · by_cases h2 : (BNode.formOf ns i == BNode.formOf ns j) = true
+    · by_cases h3 : (BNode.idOf ns i == BNode.idOf ns j) = true
+      · simp [h1, h2, h3, bind, StateT.bind, pure, StateT.pure, Except.pure, Except.map, Except.bind, throw, throwThe,
+          MonadExceptOf.throw, StateT.lift]
+      · simp [h1, h2, h3, bind, StateT.bind, pure, StateT.pure, Except.pure, Except.map, Except.bind, modify,
+          modifyGet, MonadStateOf.modifyGet, StateT.modifyGet]
+    · simp [h1, h2, bind, StateT.bind, pure, StateT.pure, Except.pure, Except.map, Except.bind]
+
+/-- **the bridging loop is all-pairs**: the regenerated nested loop bridges every ordered pair of distinct nodes with the
+same `bridged_form` (raising `ValueError` for two such nodes with one id), exactly like `bridgeAll` — any number of
+nodes.  (A star — bridging everything with one node only — is a different function: `shared_after_all_pairs`, C16, is
+about `allPairs`.) -/
+theorem bridgeAll_matches_source (ns : List BNode) (b : I2N.Index.Bridging) :
+    (genBridgeAll ns).run b = (bridgeAll ns b).map (fun b' => ((), b')) := by
+  unfold genBridgeAll bridgeAll
+  have inner : ∀ i : Nat, ((List.range ns.length).forM fun node2 => genBridgePair ns i node2) =
+      stepM (fun b => (List.range ns.length).foldlM (fun b j => bridgePair ns b i j) b) := by
+    intro i
+    funext b
+    simp only [bridgePair_matches_source]
+    exact forM_stepM (fun b j => bridgePair ns b i j) (List.range ns.length) b
+  simp only [inner]
+  exact forM_stepM (fun b i => (List.range ns.length).foldlM (fun b j => bridgePair ns b i j) b) (List.range ns.length) b
+
+
+
+/-- the regenerated definitions compute: `remove_set_vm1 = normal` mentions an available restriction and is used as it
+is, the default `leaves` gets `all..` in front -/
+def exEnv : UEnv :=
+  { restrictions := ["normal", "leaves", "all"], vmParam := fun vm k => if vm == "vm1" && k == "remove_set" then some "tutorial" else none,
+    compForms := fun _ => ["cf"], parseClean := fun r _ _ w => if w == "net5" || r != "all..tutorial" then none else some exGraph,
+    parseNames := fun r _ _ => if r == "all..customize" then ["all.internal.stateless.noop", (exGraph.node 0).name, (exGraph.node 1).name] else [],
+    installNames := fun _ _ => [] }
+
+example : (genRemoveSet exEnv "vm1").run = "all..tutorial" ∧ (genRemoveSet exEnv "vm2").run = "leaves" := by decide
+
+/-- an incompatible worker is skipped without an error and without ending the loop (seeded C15b was a `break` here): the
+state is handed on unchanged to the next worker -/
+example : ((genWorkerBody exEnv 0 "vm1" "net5").run [("vm0", "net1", {})]).toOption.map (fun r => r.2.map (fun x => (x.1, x.2.1)))
+    = some [("vm0", "net1")] := by decide
+
+/-- three nodes of one class: all six ordered pairs are bridged (a star around the first node would leave 1–2 unlinked:
+seeded C15) -/
+example : ((genBridgeAll [⟨"a", "1"⟩, ⟨"a", "2"⟩, ⟨"a", "3"⟩]).run { regOf := [], bridged := [] }).toOption.map
+    (fun r => (r.2.isBridged 1 2, r.2.isBridged 2 1, r.2.isBridged 0 2)) = some (true, true, true) := by decide
+
+/-! ### `TestGraph.flag_intersection` (graph.py) against `flagIntersection`
+
+The loop `for test_node in self.nodes:` is matched structurally, its body is translated (`genFlagIntersectionStep`:
+the match list is the atom `otherNames.filter (endsWithStr · setless)`, `len(…) == 0` / `> 1`, the two skip tests and
+the `flag_type == "run"` choice are translated, the two attribute stores are pinned to `Flags.set`). -/
+
+/-- the body of the loop of the hand model `flagIntersection` (its anonymous step function, named) -/
+def fiStep (g : UGraph) (otherNames : List String) (ty : FlagType) (p : Pol) (skipObjectRoots skipSharedRoot : Bool)
+    (f : Flags) (i : Nat) : Except Err Flags :=
+  let nd := g.node i
+  match otherNames.filter (fun nm => endsWithStr nm nd.setless) with
+  | [] => .ok f
+  | [_] => if (nd.sharedRoot && skipSharedRoot) || (!nd.objectRoot.isEmpty && skipObjectRoots) then .ok f
+           else .ok (f.set ty p i)
+  | _ :: _ :: _ => .error .valueError
+
+theorem flagIntersection_eq_foldlM (g : UGraph) (fl : Flags) (otherNames : List String) (ty : FlagType) (p : Pol)
+    (so ss : Bool) :
+    flagIntersection g fl otherNames ty p so ss = (List.range g.nodes.length).foldlM (fiStep g otherNames ty p so ss) fl :=
+  rfl
+
+/-- **one iteration of `TestGraph.flag_intersection`** (regenerated from graph.py) is the step of the hand model: no match
+⇒ untouched, several ⇒ `ValueError`, one ⇒ the policy unless a skipped root; in this order.  No hypotheses. -/
+theorem flagIntersectionStep_matches_source (g : UGraph) (otherNames : List String) (ty : FlagType) (p : Pol)
+    (so ss : Bool) (i : Nat) :
+    genFlagIntersectionStep g otherNames ty p so ss i = stepM (fun f => fiStep g otherNames ty p so ss f i) := by
+  funext f
+  unfold genFlagIntersectionStep fiStep stepM
+  simp only []
+  generalize otherNames.filter (fun nm => endsWithStr nm (g.node i).setless) = l
+  cases l with
+  | nil => simp [bind, StateT.bind, pure, StateT.pure, Except.pure, Except.map, Except.bind]
+  | cons a r =>
+    cases r with
+    | nil =>
+      cases ty <;> cases h1 : (g.node i).sharedRoot <;> cases ss <;> cases h2 : (g.node i).objectRoot.isEmpty <;>
+        cases so <;>
+        simp [bind, StateT.bind, pure, StateT.pure, Except.pure, Except.map, Except.bind, flagTypeStr, modify, modifyGet,
+          MonadStateOf.modifyGet, StateT.modifyGet, h1, h2]
+    | cons b r' =>
+      have h0 : ¬ ((r'.length : Int) + 1 + 1 = 0) := by omega
+      have h1 : (1 : Int) < (r'.length : Int) + 1 + 1 := by omega
+      simp [bind, StateT.bind, pure, StateT.pure, Except.pure, Except.map, Except.bind, throw, throwThe,
+        MonadExceptOf.throw, StateT.lift, h0, h1]
+
+/-- **`TestGraph.flag_intersection` IS `flagIntersection`**: the regenerated loop over the graph's nodes ends with the
+policy table of the hand model or raises the same error — any graph, any other graph, both flag types. -/
+theorem flagIntersection_matches_source (g : UGraph) (fl : Flags) (otherNames : List String) (ty : FlagType) (p : Pol)
+    (so ss : Bool) :
+    (genFlagIntersection g otherNames ty p so ss).run fl =
+      (flagIntersection g fl otherNames ty p so ss).map (fun f => ((), f)) := by
+  rw [flagIntersection_eq_foldlM]
+  unfold genFlagIntersection
+  simp only [flagIntersectionStep_matches_source]
+  exact forM_stepM (fun f i => fiStep g otherNames ty p so ss f i) (List.range g.nodes.length) fl
+
+end MatchesSource
 
 end I2N.Props.C15
